@@ -201,3 +201,155 @@ func sizeOfBasic(b *types.Basic) int {
 	}
 	return 8
 }
+
+// R7.3c [C07]
+func ruleNFCTotal(c *eng.Ctx) {
+	const R = "R7.3c-NFC-TOTAL"
+	c.Rule(R, "font.NormalizeUnicode returns norm.NFC.String(s) on every path, or s itself only where norm.NFC.IsNormalString(s) (or emptiness) was tested: any other shortcut returns text that is not in NFC (singleton and compatibility decompositions have no combining mark)", 1, 0)
+	fn := c.P.Func("font.NormalizeUnicode")
+	if fn == nil {
+		c.Undec(R, "font.NormalizeUnicode", token.NoPos, "anchor not found")
+		return
+	}
+	for i, r := range eng.Returns(fn) {
+		key := fmt.Sprintf("font.NormalizeUnicode#return%d", i+1)
+		v := r.Results[0]
+		if call, ok := v.(*ssa.Call); ok && strings.HasSuffix(eng.CalleeName(call), "norm.Form.String") {
+			c.Ok(R, key, r.Pos(), "normalised")
+			continue
+		}
+		guarded := eng.GuardedBy(fn, r.Block(), func(f eng.Fact) bool {
+			if call, ok := f.Cond.(*ssa.Call); ok && f.Pos && strings.HasSuffix(eng.CalleeName(call), "norm.Form.IsNormalString") {
+				return true
+			}
+			op, x, y, ok := f.Cmp()
+			if ok && op == token.EQL {
+				for _, s := range []ssa.Value{x, y} {
+					if cs, isS := eng.ConstString(s); isS && cs == "" {
+						return true
+					}
+					if k, isK := eng.ConstInt(s); isK && k == 0 {
+						return true
+					}
+				}
+			}
+			return false
+		})
+		c.Check(guarded, R, key, r.Pos(), "returned unchanged only when already normal", "a return path hands back the text without NFC normalisation and without testing that it is already normal")
+	}
+}
+
+// R7.7 [C07]
+func ruleDecodeNotMemoised(c *eng.Ctx) {
+	const R = "R7.7-DECODE-NOT-MEMOISED"
+	c.Rule(R, "the text of a shown string is the result of decoding its bytes with the font bound to the resource name at that moment: it does not come out of a map of earlier results (resource names are rebound per page and per Form XObject, so a cache keyed by name and bytes returns another font's decoding)", 1, 0)
+	fn := c.P.Func("text.(*Extractor).showText")
+	if fn == nil {
+		c.Undec(R, "text.(*Extractor).showText", token.NoPos, "anchor not found")
+		return
+	}
+	cluster := eng.Cluster(fn, 2)
+	n := 0
+	var bad []string
+	eng.Instrs(fn, false, func(in ssa.Instruction) {
+		st, ok := in.(*ssa.Store)
+		if !ok {
+			return
+		}
+		fr, ok := eng.AsField(st.Addr)
+		if !ok || fr.Field != "Text" || !strings.HasSuffix(fr.Struct, "text.TextFragment") {
+			return
+		}
+		n++
+		for v := range eng.SliceInter(st.Val, func(*ssa.Call) bool { return true }, cluster) {
+			lk, ok := v.(*ssa.Lookup)
+			if !ok {
+				continue
+			}
+			mt, ok := lk.X.Type().Underlying().(*types.Map)
+			if !ok {
+				continue
+			}
+			switch et := mt.Elem().Underlying().(type) {
+			case *types.Basic:
+				if et.Info()&types.IsString != 0 {
+					bad = append(bad, "map lookup at "+c.P.Pos(lk.Pos()))
+				}
+			case *types.Map:
+				bad = append(bad, "map lookup at "+c.P.Pos(lk.Pos()))
+			}
+		}
+	})
+	c.Check(n > 0 && len(bad) == 0, R, "text.(*Extractor).showText#Text", fn.Pos(), "decoded on the spot", "the fragment text comes from a table of earlier results ("+strings.Join(dedupStr(bad), ", ")+")")
+}
+
+// R6.6 [C06]
+func ruleDictKeepsAll(c *eng.Ctx) {
+	const R = "R6.6-DICT-KEEPS-ALL"
+	c.Rule(R, "both dictionary parsers store every key/value pair they parsed: the store is not conditional on what kind of value it is (dropping null or empty values makes the two parsers disagree and loses entries on re-serialisation)", 2, 0)
+	for _, name := range []string{"core.(*Parser).parseDict", "contentstream.(*Parser).parseDict"} {
+		fn := c.P.Func(name)
+		if fn == nil {
+			c.Undec(R, name, token.NoPos, "anchor not found")
+			continue
+		}
+		var upd []*ssa.MapUpdate
+		eng.Instrs(fn, false, func(in ssa.Instruction) {
+			if mu, ok := in.(*ssa.MapUpdate); ok {
+				upd = append(upd, mu)
+			}
+		})
+		if len(upd) == 0 {
+			c.Viol(R, name, fn.Pos(), "no dictionary entry is stored")
+			continue
+		}
+		bad := ""
+		for _, mu := range upd {
+			doms, _ := eng.DominatingIfs([]*ssa.Function{fn}, mu)
+			for _, ifi := range doms {
+				for v := range eng.Slice(ifi.Cond, nil) {
+					ta, ok := v.(*ssa.TypeAssert)
+					if !ok {
+						continue
+					}
+					// a type test applied to the value that is about to be stored
+					for w := range eng.Slice(mu.Value, nil) {
+						if w == ta.X {
+							bad = "the store at " + c.P.Pos(mu.Pos()) + " depends on a type test of the value at " + c.P.Pos(ifi.Pos())
+						}
+					}
+					if ta.X == mu.Value {
+						bad = "the store at " + c.P.Pos(mu.Pos()) + " depends on a type test of the value at " + c.P.Pos(ifi.Pos())
+					}
+				}
+			}
+		}
+		c.Check(bad == "", R, name, fn.Pos(), "every parsed entry is stored", bad+": entries with some kinds of value are silently dropped")
+	}
+}
+
+// R10.8 [C10]
+func ruleFilterPageIndex(c *eng.Ctx) {
+	const R = "R10.8-FILTER-PAGE-INDEX"
+	c.Rule(R, "every call of HeaderFooterResult.FilterFragments in the Extractor passes the source page index of the page at hand (an element of the resolved page list or the page record's index), never the position inside the selection: with a page selection the two differ and the regions of another page are applied", 6, 0)
+	for _, fn := range c.P.ModuleFuncs() {
+		if fn.Pkg == nil || eng.ShortPath(fn.Pkg.Pkg.Path()) != "" {
+			continue
+		}
+		n := 0
+		for _, ci := range eng.CallsNamed(fn, true, "layout.(*HeaderFooterResult).FilterFragments") {
+			n++
+			arg := ci.Common().Args[1]
+			key := fmt.Sprintf("%s#FilterFragments%d", eng.FuncName(fn), n)
+			_, isInd := eng.Induction(arg)
+			_, isConst := eng.ConstInt(arg)
+			derivedFromCounter := false
+			if b, ok := arg.(*ssa.BinOp); ok {
+				if _, i1 := eng.Induction(b.X); i1 {
+					derivedFromCounter = true
+				}
+			}
+			c.Check(!isInd && !isConst && !derivedFromCounter, R, key, ci.Pos(), "page index is the source page number", "the page index passed to the header/footer filter is the loop position, not the source page: under a page selection the wrong page's regions are removed")
+		}
+	}
+}
